@@ -121,32 +121,32 @@ pub fn enumeral_lookup(m: &Model, ctx: &mut Ctx, rule: &str) {
     let named = |n: &str, fields: Vec<(&str, Val)>| Val::Ctor(n.to_string(), vec![], fields.into_iter().map(|(k, v)| (k.to_string(), v)).collect::<Map<_, _>>());
     let defs: Vec<(&str, Vec<&str>)> = vec![("A-Enum", vec!["same", "other"]), ("M-Int", vec![]), ("Z-Enum", vec!["first", "same"])];
     let defs2 = defs.clone();
+    // definitions as the linker sees them; has_enum_value / name() are the crate's own code (inlined)
+    let tld_of = move |n: &str, ms: &Vec<&str>| -> Val {
+        let ty = if ms.is_empty() {
+            Val::Ctor("Integer".into(), vec![Val::Opaque("integer".into())], Map::new())
+        } else {
+            let members = Val::List(ms.iter().enumerate().map(|(i, m)| named("Enumeral", vec![("name", Val::Str(m.to_string())), ("index", Val::int(i as i128))])).collect());
+            Val::Ctor("Enumerated".into(), vec![named("Enumerated", vec![("members", members)])], Map::new())
+        };
+        Val::Ctor("Type".into(), vec![named("ToplevelTypeDefinition", vec![("name", Val::Str(n.to_string())), ("ty", ty)])], Map::new())
+    };
     let hook = move |_: &Evaluator, name: &str, a: &[Val]| -> Option<Result<Val, String>> {
         match (name, a.first()) {
-            (".iter", Some(Val::Opaque(s))) | (".values", Some(Val::Opaque(s))) if s == "tlds" => Some(Ok(Val::List(defs2.iter().map(|(n, _)| {
-                let t = Val::Sym(format!("tld:{}", n));
+            (".iter", Some(Val::Opaque(s))) | (".values", Some(Val::Opaque(s))) if s == "tlds" => Some(Ok(Val::List(defs2.iter().map(|(n, ms)| {
+                let t = tld_of(n, ms);
                 if name == ".iter" { Val::Tuple(vec![Val::Str(n.to_string()), t]) } else { t }
             }).collect()))),
-            (".has_enum_value", Some(Val::Sym(t))) => {
-                let tn = t.trim_start_matches("tld:");
-                let typed = match a.get(1) {
-                    Some(Val::Ctor(s, p, _)) if s == "Some" => match p.first() { Some(Val::Str(x)) => Some(x.clone()), _ => Some(String::new()) },
-                    _ => None,
-                };
-                let id = match a.get(2) { Some(Val::Str(x)) => x.clone(), _ => String::new() };
-                let has = defs2.iter().any(|(n, ms)| *n == tn && ms.contains(&id.as_str()));
-                Some(Ok(Val::Bool(has && typed.map(|x| x == tn).unwrap_or(true))))
-            }
-            (".name", Some(Val::Sym(t))) => Some(Ok(Val::Str(t.trim_start_matches("tld:").to_string()))),
             _ => None,
         }
     };
-    let ev = Evaluator { consts: &consts, call_hook: &hook, inline: None };
+    let inl = inline_all(m, &["ToplevelDefinition"]);
+    let ev = Evaluator { consts: &consts, call_hook: &hook, inline: Some(&inl) };
     let params: Vec<String> = f.sig.inputs.iter().filter_map(|a| match a { syn::FnArg::Typed(t) => Some(tok(&t.pat)), _ => None }).collect();
-    for nested in [false, true] {
-        let key = format!("enumeral-of-governing-type:{}", if nested { "nested" } else { "direct" });
+    for (nested, id) in [(false, "same"), (true, "same"), (false, "other"), (true, "other")] {
+        let key = format!("enumeral-of-governing-type:{}:{}", if nested { "nested" } else { "direct" }, id);
         ctx.oblige(rule, &key, true);
-        let ident = named("ElsewhereDeclaredValue", vec![("identifier", Val::Str("same".into())), ("parent", Val::none()), ("module", Val::none())]);
+        let ident = named("ElsewhereDeclaredValue", vec![("identifier", Val::Str(id.into())), ("parent", Val::none()), ("module", Val::none())]);
         let value = if nested { named("LinkedNestedValue", vec![("supertypes", Val::List(vec![])), ("value", ident)]) } else { ident };
         let ty = Val::Ctor("Enumerated".into(), vec![Val::Opaque("enumerated".into())], Map::new());
         let mut env = Env::new();
@@ -167,6 +167,14 @@ pub fn enumeral_lookup(m: &Model, ctx: &mut Ctx, rule: &str) {
             found.ok_or_else(|| "the arm does not produce an EnumeratedValue".to_string())
         });
         match r {
+            // `other` is no enumeral of the governing type Z-Enum: whatever it is resolved to, it is not `Z-Enum::other`
+            Ok(sh) if id == "other" => {
+                if sh.contains("enumerated:\"Z-Enum\"") {
+                    ctx.violate(rule, "enumeral-not-defined-by-type", &f.file, crate::rules::util::span_line(&mt),
+                        &format!("`other` as a value of type Z-Enum ::= ENUMERATED {{ first, same }} is linked as `{}`: Z-Enum has no such enumeral", sh.chars().take(90).collect::<String>()));
+                }
+            }
+            Err(_) if id == "other" => {}
             Ok(sh) => {
                 if !sh.contains("enumerated:\"Z-Enum\"") {
                     ctx.violate(rule, "enumeral-of-another-type", &f.file, crate::rules::util::span_line(&mt),
